@@ -226,6 +226,9 @@ bool ComponentEntity::replaceComponent(size_t index, const ComponentPtr &newComp
     ParentedEntityPtr parent = nullptr;
     if (oldComponent != nullptr) {
         parent = oldComponent->parent();
+        if ((parent == newComponent) || ((parent != nullptr) && parent->hasAncestor(newComponent))) {
+            return false;
+        }
     }
 
     if (removeComponent(index)) {
